@@ -59,7 +59,11 @@ class Scripter:
             elif op == "peerabort":
                 lines.append(self.line("peerabort", 0))
             elif op == "annassign":      # the announcer is always peer 60: "the" session of the model
-                lines.append("announce c=%d m=ok p=60 assign=1 ep=%s%s" % (a["c"], "ok" if a["ep"] == "ok" else self.rng.choice(HOSTILE_EPS), " sock=1" if sock else ""))
+                if a["ep"] == "relayhint":   # a usable endpoint nobody listens on, and a manifest whose discovery hints name relays
+                    lines.append("announce c=%d m=ok p=60 assign=1 ep=%s hints=%s%s" % (a["c"], self.rng.choice(["port0", "ok"]), self.rng.choice(["relay", "relay", "relaybad", "mixed", "control"]), " sock=1" if sock else ""))
+                else:
+                    lines.append("announce c=%d m=ok p=60 assign=1 ep=%s%s%s" % (a["c"], "ok" if a["ep"] == "ok" else self.rng.choice(HOSTILE_EPS),
+                                                                                 " hints=%s" % self.rng.choice(["relay", "mixed", "relaybad"]) if self.rng.random() < 0.25 else "", " sock=1" if sock else ""))
             elif op == "peerdrop":
                 lines.append("peerdrop p=60")
             elif op == "ticks":
@@ -123,11 +127,12 @@ def run(chk):
     thorough = chk.tier == "thorough"
     r = vlib.mc("NodeInputs", "MC_NodeInputs.cfg", workers=2, timeout=300)
     chk.add_model("NodeInputs as coded (index validation, guarded key reconstruction, guarded control handler): C35_NoThrow", r)
-    for cfg in ("dev_noguard", "dev_nocontrolguard", "dev_sigpipe", "dev_unsafedecode", "dev_endpointthrows"):
+    for cfg in ("dev_noguard", "dev_nocontrolguard", "dev_sigpipe", "dev_unsafedecode", "dev_endpointthrows", "dev_norelayclient"):
         vlib.mc("NodeInputs", "MC_NodeInputs_%s.cfg" % cfg, expect_violation="C35_NoThrow", workers=2, timeout=300)
     vlib.mc("NodeInputs", "MC_NodeInputs_reach_poisonchunk.cfg", expect_violation="Reach_PoisonThenChunk", workers=2, timeout=300)
     vlib.mc("NodeInputs", "MC_NodeInputs_reach_poisonfetch.cfg", expect_violation="Reach_PoisonHeldThenFetch", workers=2, timeout=300)
     vlib.mc("NodeInputs", "MC_NodeInputs_reach_endpoint.cfg", expect_violation="Reach_HostileEndpointParsed", workers=2, timeout=300)
+    vlib.mc("NodeInputs", "MC_NodeInputs_reach_relayhint.cfg", expect_violation="Reach_RelayHintWalked", workers=2, timeout=300)
     # sequences are taken from the model WITHOUT index validation: they contain the poison-then-trigger histories
     rg, hists = vlib.dump_hists("NodeInputs", "MC_NodeInputs_gen.cfg", workers=2, timeout=300)
     chk.add_model("NodeInputs without index validation (sequence generator: every reachable cache/held state)", rg)
@@ -155,6 +160,11 @@ def run(chk):
     for k, ep in enumerate(EPS):
         beh.append(["reset", "announce c=%d m=ok p=%d assign=1 ep=%s" % (1 + k % 3, 11 + k, ep), "peerdrop p=%d" % (11 + k), "ticks n=12 ms=1500",
                     "announce c=%d m=ok p=%d assign=1 ep=%s sock=1" % (2 + k % 2, 31 + k, ep), "ticks n=3 ms=700", "peerdrop p=%d" % (31 + k), "ticks n=40 ms=2000", "other k=0 p=5"])
+    # manifests whose discovery hints name relays / control endpoints, on a node in the shipped default configuration (relaying enabled,
+    # no relay endpoint listed) and on one with relaying switched off: the hints are walked once the direct attempt at the announcer fails
+    for k, (hints, ep, relay) in enumerate([(h, e, r) for h in ("relay", "relaybad", "mixed", "control") for e in ("port0", "ok") for r in ("default", "off")]):
+        beh.append(["reset relay=%s" % relay, "announce c=%d m=ok p=%d assign=1 ep=%s hints=%s" % (1 + k % 3, 51 + k, ep, hints), "ticks n=2 ms=700",
+                    "peerdrop p=%d" % (51 + k), "ticks n=20 ms=1500", "other k=0 p=5"])
     run_driver(chk, beh, "tlc-sequences")
     if thorough:
         run_driver(chk, beh[: len(hists) + 60], "tlc-sequences-asan", flavour="asan")
